@@ -46,6 +46,25 @@ func inputTokens(in []input) []int32 {
 	return out
 }
 
+// recString renders a slot record / cache content: token ids, and imgK.R for row R of image K.
+func recString(t []int32) string {
+	var sb strings.Builder
+	for i, x := range t {
+		if i > 0 {
+			sb.WriteByte(' ')
+		}
+		sb.WriteString(entString(int(x)))
+	}
+	return sb.String()
+}
+
+func entString(x int) string {
+	if x < 0 {
+		return "img" + strconv.Itoa((-x-1)/64) + "." + strconv.Itoa((-x-1)%64)
+	}
+	return strconv.Itoa(x)
+}
+
 func (srv *simServer) family() string {
 	return [...]string{"unified", "unified-noshift", "recurrent"}[srv.cfg.cacheMode]
 }
@@ -201,13 +220,13 @@ func (srv *simServer) departed(l liveSeq) {
 	slot := l.seq.cache
 	r.finalRec = inputTokens(slot.Inputs)
 	r.haveFinal = true
-	debugf("%s: req#%d left slot %d: reason=%d numPredicted=%d numPredict=%d record=[%s]", srv.name, r.id, slot.Id, l.seq.doneReason, l.seq.numPredicted, l.seq.numPredict, tokensString(r.finalRec))
+	debugf("%s: req#%d left slot %d: reason=%d numPredicted=%d numPredict=%d record=[%s]", srv.name, r.id, slot.Id, l.seq.doneReason, l.seq.numPredicted, l.seq.numPredict, recString(r.finalRec))
 }
 
 func visString(vis []llama.VisEnt) string {
 	var sb strings.Builder
 	for _, e := range vis {
-		fmt.Fprintf(&sb, "%d@%d ", e.Tok, e.Pos)
+		fmt.Fprintf(&sb, "%s@%d ", entString(e.Tok), e.Pos)
 	}
 	return sb.String()
 }
@@ -270,7 +289,7 @@ func (srv *simServer) checkCacheContent() {
 		if symptom, detail := compareHistory(got, want, true); symptom != "" {
 			srv.w.violate("C07", "slot-record", "slot-content:"+srv.family()+":"+symptom+":"+srv.route(sl.Id),
 				"%s: slot %d (inUse=%v): the cache does not hold what the slot's record says: %s\n  cache sequence %d: %s\n  slot record: [%s]\n  operations on this cache sequence since it was last cleared: %v",
-				srv.name, sl.Id, sl.InUse, detail, sl.Id, visString(got), tokensString(want), srv.log(sl.Id).ops)
+				srv.name, sl.Id, sl.InUse, detail, sl.Id, visString(got), recString(want), srv.log(sl.Id).ops)
 			return
 		}
 	}
@@ -350,7 +369,7 @@ func (srv *simServer) checkRows(rows []llama.DecodeRow) {
 		}
 		srv.w.violate("C07", "kv-history", "kv-history:"+srv.family()+":"+symptom+":"+srv.route(slot),
 			"%s: slot %d: batch entry %d (token %d at position %d) does not see exactly the recorded inputs at positions 0..%d: %s\n  visible through the mask: %s\n  slot record + pending: [%s]\n  operations on this cache sequence since it was last cleared: %v\n  request: %v",
-			srv.name, slot, i, row.Tok, p, p, detail, visString(row.Visible), tokensString(info.want), srv.log(slot).ops, info.req)
+			srv.name, slot, i, row.Tok, p, p, detail, visString(row.Visible), recString(info.want), srv.log(slot).ops, info.req)
 		reported = true
 	}
 }
@@ -627,7 +646,7 @@ func (w *runWorld) checkStream(srv *simServer, r *reqState) {
 		}
 		switch {
 		case !prefixOK:
-			w.violate("C07", "slot-record", "slot-record:rewritten-at-end", "after %s the slot record [%s] is not a prefix of the record at its last Decode [%s]", r, tokensString(r.finalRec), tokensString(r.lastRec))
+			w.violate("C07", "slot-record", "slot-record:rewritten-at-end", "after %s the slot record [%s] is not a prefix of the record at its last Decode [%s]", r, recString(r.finalRec), recString(r.lastRec))
 		case j < 0 && trimmed != 0:
 			w.violate("C07", "slot-record", "slot-record:trimmed-without-stop", "after %s (no stop string) the slot record lost %d inputs that are in the cache", r, trimmed)
 		case j >= 0 && completed && utf8.ValidString(full[:tk[j]]):
